@@ -158,9 +158,52 @@ def _inside_joined(root: ast.AST, c: ast.Constant) -> bool:
     return False
 
 
+def r14_3(ctx, counts) -> RuleResult:
+    model = ctx.model
+    res = RuleResult(
+        'R14.3', 'PREFIX-STRIP',
+        'Where fn:path (and the path helpers) cut the path of the root off the path of a node, '
+        'the prefix is removed by slicing (`p[len(prefix):]`), `str.removeprefix`, or '
+        '`replace(prefix, "", 1)`: `str.replace(prefix, "")` removes every occurrence, so a '
+        'nested element with the same name as the root (div/p/div) loses its own step and two '
+        'nodes share one path.')
+    n = 0
+    funcs = [f for f in model.all_functions()
+             if f.name in ('evaluate__path',) or (f.name in ('path', 'get_path') and
+                                                  f.module.name == 'elementpath.xpath_nodes')]
+    for f in sorted(funcs, key=lambda q: q.key):
+        for c in walk_local(f.node):
+            if isinstance(c, ast.Call) and isinstance(c.func, ast.Attribute) and \
+                    c.func.attr == 'replace' and len(c.args) >= 2 and \
+                    isinstance(c.args[1], ast.Constant) and c.args[1].value == '' and \
+                    'path' in stmt_text(c.args[0]):
+                n += 1
+                bounded = len(c.args) >= 3 and isinstance(c.args[2], ast.Constant) and \
+                    c.args[2].value == 1
+                res.instances.append(f'{f.key}: {stmt_text(c)[:60]} count=1: {bounded}')
+                if bounded:
+                    res.ok()
+                else:
+                    res.fail(finding('R14.3', f, c, 'prefix removed with replace()',
+                                     f'`{stmt_text(c)[:60]}` removes every occurrence of the root '
+                                     f'path, not only the prefix: in <div><p><div/></p></div> the '
+                                     f'inner div gets the path of <p>'))
+        slices = [x for x in walk_local(f.node) if isinstance(x, ast.Subscript)
+                  and isinstance(x.slice, ast.Slice) and x.slice.lower is not None
+                  and 'len(' in stmt_text(x.slice.lower) and 'path' in stmt_text(x.slice.lower)]
+        for x in slices:
+            n += 1
+            res.instances.append(f'{f.key}: {stmt_text(x)[:60]} (slice)')
+            res.ok()
+    counts['prefix_strips'] = n
+    if n < 1:
+        raise AnalysisError('fn:path: the removal of the root path prefix was not located')
+    return res
+
+
 def run(ctx) -> dict:
     counts: dict[str, int] = {}
-    results = [r14_1(ctx, counts), r14_2(ctx, counts)]
+    results = [r14_1(ctx, counts), r14_2(ctx, counts), r14_3(ctx, counts)]
     return {
         'results': results, 'counts': counts,
         'explanation':
